@@ -1017,7 +1017,11 @@ class Index:
         return None
 
     def callee(self, m: Module, func: Optional[FuncDef], call: ast.Call, depth=0) -> Optional[Def]:
-        return self.resolve_value(m, func, call.func, depth)
+        d = self.resolve_value(m, func, call.func, depth)
+        if isinstance(d, FuncDef) and d.is_property and isinstance(call.func, ast.Attribute):
+            # `obj.prop(...)` calls the *value* of the property, which is not statically known
+            return None
+        return d
 
     def resolve_value(self, m: Module, func: Optional[FuncDef], expr, depth=0) -> Optional[Def]:
         """Resolve a function-valued / class-valued expression: static chain first,
